@@ -184,6 +184,7 @@ def judge_once(ctx, cases, mode, chunk=6000, count=True):
         key = (b["i"], b["ev"], b["kind"], json.dumps(b["loc"], sort_keys=True))
         if key in merged:
             merged[key]["as"] = sorted(set(merged[key]["as"]) | set(b["as"]))
+            merged[key]["sf"] = {k: bool((merged[key].get("sf") or {}).get(k) or (b.get("sf") or {}).get(k)) for k in ("wild", "desc", "filter")}
         else:
             merged[key] = b
     for b in merged.values():
